@@ -46,7 +46,10 @@ CLAIMED = {
         text='Plane.__init__ is proved to build an orthonormal right-handed frame in both branches of its Z-axis test; the 2D<->3D maps '
              'are proved mutually inverse on the plane; the Face3D constructor is proved never to store a clockwise boundary for every '
              'vertex list and every (possibly opposing) user plane; the projected signed area is proved equal to area vector . normal for '
-             'any loop, planar or not (right-hand rule); flip reverses the boundary and flips the plane. All constructors, holes, '
+             'any loop, planar or not (right-hand rule); for a face built without a plane, the three numbers _plane_from_vertices '
+             'accumulates over its triangle fan are proved to be the components of the area (Newell) vector of the whole loop, for every '
+             'vertex count and start vertex (collinear or re-entrant first corners included); flip reverses the boundary and flips the '
+             'plane. All constructors, holes, '
              'near-Z planes and from_dict/from_array are searched against exact references.',
         note='Trusted: Coq kernel, py2coq, harness. sqrt enters as a function parameter, assumed a morphism for == and exact on the '
              'radicands used (pointwise). Face3D model covers faces without holes.',
